@@ -38,6 +38,10 @@ type DiskOp struct {
 	Op    string
 	Key   string
 	Err   bool
+	// N is the number of entries a list/page operation returned (-1: not a
+	// listing, or it failed); Res the entries themselves.
+	N   int
+	Res []string
 }
 
 // Disk is the simulated physical backend: a sorted map, an ordered log of
@@ -108,8 +112,9 @@ func reqID(ctx context.Context) string {
 	return ""
 }
 
-func (d *Disk) gate(ctx context.Context, op, key string, faultable bool) (Fault, string) {
+func (d *Disk) gate(ctx context.Context, op, key string, faultable bool) (Fault, int) {
 	task := ""
+	idx := -1
 	f := FaultNone
 	if s := d.sim; s != nil && s.Controlled() {
 		f = s.Gate("disk", op+" "+key, faultable)
@@ -126,10 +131,31 @@ func (d *Disk) gate(ctx context.Context, op, key string, faultable bool) (Fault,
 				task = d.sim.cur.Name
 			}
 		}
-		d.Ops = append(d.Ops, DiskOp{Step: step, Task: task, ReqID: reqID(ctx), Op: op, Key: key, Err: f == FaultErrNA})
+		idx = len(d.Ops)
+		d.Ops = append(d.Ops, DiskOp{Step: step, Task: task, ReqID: reqID(ctx), Op: op, Key: key, Err: f == FaultErrNA, N: -1})
 		d.mu.Unlock()
 	}
-	return f, task
+	return f, idx
+}
+
+// setN records the result size of a recorded listing.
+func (d *Disk) setN(idx int, r []string) {
+	if idx < 0 {
+		return
+	}
+	d.mu.Lock()
+	if idx < len(d.Ops) {
+		d.Ops[idx].N = len(r)
+		d.Ops[idx].Res = r
+	}
+	d.mu.Unlock()
+}
+
+// OpsCopy returns the recorded operations (needs RecordOps).
+func (d *Disk) OpsCopy() []DiskOp {
+	d.mu.Lock()
+	defer d.mu.Unlock()
+	return append([]DiskOp{}, d.Ops...)
 }
 
 // post is the optional scheduling point between an operation taking effect
@@ -223,7 +249,7 @@ func (d *Disk) Delete(ctx context.Context, key string) error {
 }
 
 func (d *Disk) List(ctx context.Context, prefix string) ([]string, error) {
-	f, _ := d.gate(ctx, "list", prefix, true)
+	f, oi := d.gate(ctx, "list", prefix, true)
 	if f == FaultErrNA || f == FaultErrApplied {
 		return nil, ErrInjected
 	}
@@ -233,11 +259,16 @@ func (d *Disk) List(ctx context.Context, prefix string) ([]string, error) {
 	d.mu.Lock()
 	defer d.mu.Unlock()
 	d.Reads++
-	return d.kv.List(prefix), nil
+	r := d.kv.List(prefix)
+	if oi >= 0 && oi < len(d.Ops) {
+		d.Ops[oi].N = len(r)
+		d.Ops[oi].Res = r
+	}
+	return r, nil
 }
 
 func (d *Disk) ListPage(ctx context.Context, prefix, after string, limit int) ([]string, error) {
-	f, _ := d.gate(ctx, "page", prefix+"|"+after+"|"+strconv.Itoa(limit), true)
+	f, oi := d.gate(ctx, "page", prefix+"|"+after+"|"+strconv.Itoa(limit), true)
 	if f == FaultErrNA || f == FaultErrApplied {
 		return nil, ErrInjected
 	}
@@ -247,7 +278,12 @@ func (d *Disk) ListPage(ctx context.Context, prefix, after string, limit int) ([
 	d.mu.Lock()
 	defer d.mu.Unlock()
 	d.Reads++
-	return d.kv.ListPage(prefix, after, limit), nil
+	r := d.kv.ListPage(prefix, after, limit)
+	if oi >= 0 && oi < len(d.Ops) {
+		d.Ops[oi].N = len(r)
+		d.Ops[oi].Res = r
+	}
+	return r, nil
 }
 
 // ---- transactions (snapshot + optimistic validation at commit) ----
@@ -348,7 +384,7 @@ func (t *DiskTx) Get(ctx context.Context, key string) (*physical.Entry, error) {
 }
 
 func (t *DiskTx) List(ctx context.Context, prefix string) ([]string, error) {
-	f, _ := t.d.gate(ctx, "tx-list", prefix, true)
+	f, oi := t.d.gate(ctx, "tx-list", prefix, true)
 	t.mu.Lock()
 	defer t.mu.Unlock()
 	if t.done {
@@ -358,12 +394,13 @@ func (t *DiskTx) List(ctx context.Context, prefix string) ([]string, error) {
 		return nil, ErrInjected
 	}
 	r := t.snap.List(prefix)
+	t.d.setN(oi, r)
 	t.ops = append(t.ops, txOp{kind: 'l', key: prefix, result: r})
 	return r, nil
 }
 
 func (t *DiskTx) ListPage(ctx context.Context, prefix, after string, limit int) ([]string, error) {
-	f, _ := t.d.gate(ctx, "tx-page", prefix+"|"+after+"|"+strconv.Itoa(limit), true)
+	f, oi := t.d.gate(ctx, "tx-page", prefix+"|"+after+"|"+strconv.Itoa(limit), true)
 	t.mu.Lock()
 	defer t.mu.Unlock()
 	if t.done {
@@ -373,6 +410,7 @@ func (t *DiskTx) ListPage(ctx context.Context, prefix, after string, limit int) 
 		return nil, ErrInjected
 	}
 	r := t.snap.ListPage(prefix, after, limit)
+	t.d.setN(oi, r)
 	t.ops = append(t.ops, txOp{kind: 'p', key: prefix, after: after, limit: limit, result: r})
 	return r, nil
 }
